@@ -1,6 +1,6 @@
 (** VirtualOrder.v — reading a virtual signal at any sequence of indices, in any order and with repeats, yields
     at each index the value of its body at that index (C13), provided the body can be evaluated at every index,
-    leaves the state as it was, does not depend on what the cache holds, and timestamps are distinct. *)
+    leaves the state as it was and does not depend on what the cache holds (timestamps may repeat: the cache key is the index). *)
 From WalModel Require Import Eval.
 From WalModel.proofs Require Import VcdProofs TraceProofs VirtualProofs ScanProofs.
 Local Open Scope Z_scope.
@@ -25,17 +25,14 @@ Section Order.
     set1 st0 tid (set_virt (set_index t0 j) (aset name (mkVsig body c) (tr_virt t0))).
 
   Definition in_range (j : Z) : Prop := 0 <= j <= tr_max t0.
-  (** every index has a timestamp, and different indices have different timestamps (the cache key) *)
-  Variable ts_of : Z -> Z.
-  Hypothesis Hts : forall j, in_range j -> znth (tr_ts t0) j = Some (ts_of j).
-  Hypothesis Hinj : forall j j', in_range j -> in_range j' -> ts_of j = ts_of j' -> j = j'.
   (** the body has a value at every index, whatever the cache holds, and leaves the state as it was *)
   Variable value_at : Z -> val.
   Hypothesis Hbody : forall j c, in_range j ->
     exists vals, eval_args ev body (vstate j c) = Ok vals (vstate j c) /\ last_opt vals = Some (value_at j).
 
+  (** every cached value is the body's value at the index it is stored under (the cache key is the index) *)
   Definition sound (c : list (Z * val)) : Prop :=
-    forall ts v, In (ts, v) c -> forall j, in_range j -> ts_of j = ts -> v = value_at j.
+    forall j v, In (j, v) c -> in_range j -> v = value_at j.
 
   Lemma vs_at_vstate j c :
     vs_at (vstate j c) tid name =
@@ -58,17 +55,15 @@ Section Order.
     exists c', virtual_value ev tid name (vstate j c) = Ok (value_at j) (vstate j c') /\ sound c'.
   Proof.
     intros Hj Hs.
-    assert (Hz : znth (tr_ts (set_virt (set_index t0 j) (aset name (mkVsig body c) (tr_virt t0))))
-                      (tr_index (set_virt (set_index t0 j) (aset name (mkVsig body c) (tr_virt t0)))) = Some (ts_of j)).
-    { simpl. apply Hts, Hj. }
+    assert (Hz : tr_index (set_virt (set_index t0 j) (aset name (mkVsig body c) (tr_virt t0))) = j) by reflexivity.
     rewrite (virtual_value_unfold ev tid name _ _ _ _ (vs_at_vstate j c) Hz). cbn [vs_cache vs_body].
-    destruct (cache_find (ts_of j) c) as [w|] eqn:Hc.
-    - exists c. split; [|exact Hs]. f_equal. apply (Hs _ _ (cache_find_in _ _ _ Hc) j Hj eq_refl).
+    destruct (cache_find j c) as [w|] eqn:Hc.
+    - exists c. split; [|exact Hs]. f_equal. apply (Hs _ _ (cache_find_in _ _ _ Hc) Hj).
     - destruct (Hbody j c Hj) as (vals & He & Hl). rewrite He, Hl, (vs_at_vstate j c).
-      exists (c +++ [(ts_of j, value_at j)]). split; [rewrite record_vstate; reflexivity|].
-      intros ts v Hin j' Hj' Ets. apply in_app_or in Hin as [Hin|[E|[]]].
-      + apply (Hs ts v Hin j' Hj' Ets).
-      + injection E as <- <-. f_equal. apply (Hinj j j' Hj Hj'). symmetry. exact Ets.
+      exists (c +++ [(j, value_at j)]). split; [rewrite record_vstate; reflexivity|].
+      intros j' v Hin Hj'. apply in_app_or in Hin as [Hin|[E|[]]].
+      + apply (Hs j' v Hin Hj').
+      + injection E as <- <-. reflexivity.
   Qed.
 
   (** a history of reads at the indices js: between reads the trace is moved to the next index by whatever means *)
@@ -97,7 +92,6 @@ From WalModel Require Import Api.
 Definition v_body : list val := [WL [VOp OAdd; VSym "a" None; VInt 1]].
 Definition v_value (j : Z) : val :=
   VInt (match j with 0 => 1 | 1 => 2 | 2 => 2 | 3 => 1 | _ => 2 end).
-Definition v_ts (j : Z) : Z := 10 * j.
 
 Lemma v_body_pure : forall j c, in_range sig_trace j ->
   exists vals, eval_args ev0 v_body (vstate "t" "v" sig_state sig_trace v_body j c) = Ok vals (vstate "t" "v" sig_state sig_trace v_body j c)
@@ -112,11 +106,8 @@ Example reads_with_the_real_evaluator :
   exists c2, reads ev0 "t" "v" sig_state sig_trace v_body [3; 0; 3; 4; 1; 0]
                    [] [VInt 1; VInt 1; VInt 1; VInt 2; VInt 2; VInt 1] c2.
 Proof.
-  apply (reads_from_fresh_definition ev0 "t" "v" sig_state sig_trace v_body eq_refl v_ts) with (value_at := v_value)
+  apply (reads_from_fresh_definition ev0 "t" "v" sig_state sig_trace v_body eq_refl) with (value_at := v_value)
         (js := [3; 0; 3; 4; 1; 0]).
-  - intros j Hj. unfold in_range in Hj. cbn [tr_max sig_trace] in Hj.
-    assert (E : j = 0 \/ j = 1 \/ j = 2 \/ j = 3 \/ j = 4) by lia. destruct E as [->|[->|[->|[->| ->]]]]; reflexivity.
-  - intros j j' _ _ H. unfold v_ts in H. lia.
   - exact v_body_pure.
   - repeat constructor; unfold in_range; cbn; lia.
 Qed.
